@@ -101,9 +101,38 @@ func VerifDispatch() {
 	first := make([]byte, k) // first byte of datagram i
 	size := make([]int, k)
 	var everClosed [3]*Conn
+	listenerClosed := false
+	nOpen := func() int {
+		n := 0
+		for r := 0; r < 3; r++ {
+			if open[r] != nil {
+				n++
+			}
+		}
+		return n
+	}
 
 	for i := 0; i < k; i++ {
-		switch vIntR("op", i, 0, 3) {
+		switch vIntR("op", i, 0, 4) {
+		case 4: // the listener is closed while at least one accepted connection stays open
+			// (with no open connection Close waits for the read loop, which this sequential
+			// harness does not run: that case is C12's)
+			acceptedOpen := 0
+			for r := 0; r < 3; r++ {
+				if open[r] != nil && accepted[r] {
+					acceptedOpen++
+				}
+			}
+			vAssume(!listenerClosed && acceptedOpen > 0)
+			err := l.Close()
+			vAssert(err == nil, "C11: closing the listener succeeds")
+			listenerClosed = true
+			// connections nobody accepted are discarded, accepted ones live on
+			for _, r := range pending {
+				open[r] = nil
+				queue[r] = nil
+			}
+			pending = nil
 		case 0: // a datagram arrives
 			r := vIntR("remote", i, 0, 2)
 			n := vIntR("len", i, 0, 3)
@@ -116,7 +145,7 @@ func VerifDispatch() {
 			switch {
 			case open[r] != nil:
 				queue[r] = append(queue[r], i)
-			case (filter == nil || (n > 0 && first[i] != 0)) && len(pending) < backlog:
+			case !listenerClosed && (filter == nil || (n > 0 && first[i] != 0)) && len(pending) < backlog:
 				c, ok := l.conns[verifRemote(r).String()]
 				vAssert(ok && c != nil, "C11: the first admitted datagram from an unknown remote creates a connection")
 				if !ok || c == nil {
@@ -131,6 +160,11 @@ func VerifDispatch() {
 				vAssert(!ok, "C11: refused or overflowing datagrams create nothing")
 			}
 		case 1: // Accept
+			if listenerClosed {
+				_, err := l.Accept()
+				vAssert(err != nil, "C11: Accept fails after the listener has been closed")
+				break
+			}
 			vAssume(len(pending) > 0)
 			nc, err := l.Accept()
 			r := pending[0]
@@ -155,6 +189,8 @@ func VerifDispatch() {
 		default: // Close of an accepted connection
 			r := vIntR("which", i, 0, 2)
 			vAssume(open[r] != nil && accepted[r])
+			// the last connection of a closed listener waits for the read loop when it closes (C12)
+			vAssume(!(listenerClosed && nOpen() == 1))
 			err := open[r].Close()
 			vAssert(err == nil, "C11: closing an accepted connection succeeds")
 			everClosed[r] = open[r]
@@ -288,5 +324,45 @@ func VerifLifetime() {
 		_, err := l.Accept()
 		vAssert(err != nil, "C12: Accept fails after the listener has been closed")
 	}
+	vCover("end")
+}
+
+// VerifAfterListenerClose: connections already accepted keep sending and receiving after the
+// listener has been closed; connections nobody accepted are discarded; new remotes create
+// nothing. Sequential (the read loop handles one datagram at a time); n accepted connections
+// stay open so that Close does not wait for the read loop.
+func VerifAfterListenerClose() {
+	pc := &verifPC{in: make(chan verifDgram, 1)}
+	l := verifListener(pc, 4, nil)
+	l.dispatchMsg(verifRemote(0), []byte{1})
+	nc, err := l.Accept()
+	vAssert(err == nil && nc != nil, "C12: setup")
+	c := nc.(*Conn)
+	buf := make([]byte, 8)
+	c.Read(buf)
+	l.dispatchMsg(verifRemote(1), []byte{2}) // stays un-accepted
+
+	vAssert(l.Close() == nil, "C12: closing the listener succeeds while an accepted connection is open")
+	vAssert(!pc.closed, "C12: the shared socket stays open while an accepted connection is open")
+	_, err = l.Accept()
+	vAssert(err != nil, "C12: Accept fails after the listener has been closed")
+	_, stillThere := l.conns[verifRemote(1).String()]
+	vAssert(!stillThere, "C12: closing the listener discards connections nobody accepted")
+
+	// traffic for the accepted connection, from its remote, with symbolic contents
+	n := vIntR("len", 0, 1, 4)
+	data := vBytes("data", 0, n)
+	first := data[0]
+	l.dispatchMsg(verifRemote(0), data)
+	l.dispatchMsg(verifRemote(2), []byte{3}) // a new remote after Close
+	_, created := l.conns[verifRemote(2).String()]
+	vAssert(!created && len(l.acceptCh) == 0, "C12: a closed listener creates no new connections")
+	vAssert(c.buffer.Count() == 1, "C12: an accepted connection keeps receiving after the listener has been closed")
+	if c.buffer.Count() == 1 {
+		m, rerr := c.Read(buf)
+		vAssert(rerr == nil && m == n && buf[0] == first, "C12: an accepted connection keeps receiving after the listener has been closed")
+	}
+	w, werr := c.Write([]byte{7})
+	vAssert(werr == nil && w == 1 && !pc.closed, "C12: an accepted connection keeps sending after the listener has been closed")
 	vCover("end")
 }
